@@ -223,4 +223,12 @@ var table = []Control{
 		Old: "\tres := make([]string, len(arr))\n\tcopy(res, arr[:idx])\n", New: "\tres := make([]string, len(arr))\n"},
 	{Name: "mat7-wrong-token-dropped", Rule: "MAT-7", File: fOption,
 		Old: "return true, 1, removeStringAt(idx+1, nargs)", New: "return true, 1, removeStringAt(idx, nargs)"},
+	// ---- found by the type-aware mutation operators (wrong variable, sibling field or method)
+	{Name: "fsm1-has-compares-candidate-with-itself", Rule: "FSM-1", File: fFsm,
+		Old: "if t.Next == tr.Next && t.Matcher == tr.Matcher {", New: "if tr.Next == tr.Next && t.Matcher == tr.Matcher {"},
+	{Name: "lex4-second-dash-not-tested", Rule: "LEX-4", File: fLexer, Old: "\t\t\tcase o == '-':", New: "\t\t\tcase c == '-':"},
+	{Name: "par1-lookahead-consumes", Rule: "PAR-1", File: fParser,
+		Old: "\tcase p.is(lexer.TTOptions):\n\t\treturn true", New: "\tcase p.found(lexer.TTOptions):\n\t\treturn true"},
+	{Name: "cmd5-version-text-is-the-name", Rule: "CMD-5", File: fCli,
+		Old: "cli.version = &cliVersion{version, option}", New: "cli.version = &cliVersion{name, option}"},
 }
